@@ -763,4 +763,81 @@ theorem ring_margin_of_quarter_slot (cfg : Cfg) (hr : 0 < cfg.rate) (hP : cfg.P 
     (hs : 88 * 1000000 + 6 * cfg.rate ≤ cfg.slotBits * 1000000) : cfg.Ok :=
   cfg.ok_of_quarter_slot hr hP hs
 
+/-! Non-vacuity: stations 3 (index 0) and 5 (index 1) at 500 kbit/s, `Tslot` = 400 µs, `P` = 100 µs.  Station 5
+passed the token at time 0 (on the bus until 66 µs), station 3 accepted it at its poll at 70 µs and holds it;
+station 5 supervises.  The invariant holds, and so does the schedule below. -/
+def cfg2 : Cfg := { rate := 500000, slotBits := 200, P := 100 }
+
+theorem cfg2_ok : cfg2.Ok := cfg2.ok_of_quarter_slot (by decide) (by decide) (by decide)
+
+open TokenRing in
+def ring2 (ts : Nat) : TokenRing :=
+  updateNextPrev { active := Vector.ofFn fun i => decide (i.val = 3 ∨ i.val = 5), las := .valid, ts := ts, ns := ts, ps := ts }
+
+open TokenRing in
+theorem ring2_view (ts : Nat) (hts : ts ∈ [3, 5]) : RingView [3, 5] ts (ring2 ts) := by
+  refine ⟨⟨by simp, ⟨by decide, trivial⟩, by decide⟩, hts, (updateNextPrev_las _).2, (updateNextPrev_las _).1, ?_,
+    updateNextPrev_nbr _⟩
+  intro a ha
+  unfold ring2
+  rw [updateNextPrev_active]
+  simp [isActive, ha]
+
+theorem ring2_ok (ts : Nat) (hts : ts < 128) : TokenRing.RingOk (ring2 ts) := by
+  have := TokenRing.upd_ok { active := Vector.ofFn fun i => decide (i.val = 3 ∨ i.val = 5), las := .valid, ts := ts, ns := ts, ps := ts }
+    (Vector.ofFn fun i => decide (i.val = 3 ∨ i.val = 5)) ⟨hts, hts⟩
+  exact this.1
+
+def st0 : Station :=
+  { (Station.new pEx) with online := true, st := .useToken ⟨70, none⟩ false, lastBusActivity := some 70, ring := ring2 3 }
+def st1 : Station :=
+  { (Station.new pA) with online := true, st := .checkTokenPass .first, lastBusActivity := some 66, ring := ring2 5 }
+
+theorem st0_inv : Inv st0 [] := by
+  have h := inv_new pEx [] (by decide) (by decide) (by intro s hs; cases hs)
+  exact ⟨h.addr, h.hsa, ring2_ok 3 (by decide), fun ho => by simp [st0] at ho, h.gap, fun a ha => by simp [st0] at ha,
+    fun a ha => by simp [st0] at ha, h.app, fun a d ha => by simp [st0] at ha, h.scripts, by simp [st0]⟩
+
+theorem st1_inv : Inv st1 [] := by
+  have h := inv_new pA [] (by decide) (by decide) (by intro s hs; cases hs)
+  exact ⟨h.addr, h.hsa, ring2_ok 5 (by decide), fun ho => by simp [st1] at ho, h.gap, fun a ha => by simp [st1] at ha,
+    fun a ha => by simp [st1] at ha, h.app, fun a d ha => by simp [st1] at ha, h.scripts, by simp [st1]⟩
+
+def tok0 : Transmission := { start := 0, sender := 1, bytes := StationGap.tokenBytes 3 5, dropped := false }
+def net0 : Net :=
+  { bus := { rate := 500000, txs := [tok0], seen := [70, 0] },
+    stations := [{ s := st0, apps := [], online := true }, { s := st1, apps := [], online := true }] }
+def view0 : View :=
+  { x := 0, sx := { s := st0, apps := [], online := true }, sy := { s := st1, apps := [], online := true },
+    ax := 3, ay := 5, old := [], tr := tok0, ph := .hold 70, idle := false, ly := 66, tl := 70 }
+
+theorem stok0 : StOk cfg2 view0.sx 3 5 :=
+  ⟨rfl, rfl, rfl, st0_inv, rfl, rfl, rfl, rfl, ⟨[3, 5], ring2_view 3 (by simp), by decide, by decide⟩, by decide,
+    by decide, by decide, by decide⟩
+theorem stok1 : StOk cfg2 view0.sy 5 3 :=
+  ⟨rfl, rfl, rfl, st1_inv, rfl, rfl, rfl, rfl, ⟨[3, 5], ring2_view 5 (by simp), by decide, by decide⟩, by decide,
+    by decide, by decide, by decide⟩
+
+theorem rinv0 : RInv cfg2 net0 view0 := by
+  refine ⟨by decide, rfl, rfl, rfl, stok0, stok1, ⟨rfl, rfl, rfl, rfl, rfl, rfl, ?_, ?_⟩, by decide, by decide, by decide,
+    rfl, rfl, ?_⟩
+  · intro o ho; cases ho
+  · intro i _ o ho; cases ho
+  · unfold PhaseOk
+    show _ ∧ _
+    refine ⟨rfl, rfl, ⟨_, _, rfl⟩, rfl, rfl, by decide, rfl, rfl, rfl, by decide, by decide, by decide, by decide, by decide⟩
+
+def evs0 : List (Nat × Int) := [(1, 80), (0, 137), (1, 160), (0, 230), (1, 250)]
+
+theorem sched0 : Sched cfg2.P net0 view0.tl evs0 :=
+  schedule_of_times _ _ _ _ (by
+    show SchedT 100 [70, 0] 70 evs0
+    simp [SchedT, evs0]
+    decide)
+
+example : GoodRun cfg2 (fun j => if j = 0 then 3 else 5) net0 0 (net0.bus.txEnd tok0) evs0 :=
+  two_station_ring_run cfg2 cfg2_ok _ net0 view0 rinv0
+    (by intro j hj; have : j = 0 ∨ j = 1 := by omega
+        rcases this with rfl | rfl <;> rfl) evs0 sched0
+
 end PV.C01
